@@ -245,6 +245,13 @@ func (d *dynUpdater) checkBackendPair(pair *backendPair) bool {
 		return updated
 	}
 
+	// endpoints are paired by their target, so a duplicated target
+	// cannot be tracked - it is safer to reload instead
+	if hasDuplicatedTarget(oldBack.Endpoints) || hasDuplicatedTarget(curBack.Endpoints) {
+		d.logger.InfoV(2, "backend '%s' has duplicated endpoints", curBack.ID)
+		return false
+	}
+
 	// map endpoints of old and new config together
 	endpoints := make(map[string]*epPair, len(oldBack.Endpoints))
 	targets := make([]string, 0, len(oldBack.Endpoints))
@@ -308,6 +315,19 @@ func (d *dynUpdater) checkBackendPair(pair *backendPair) bool {
 	}
 
 	return updated
+}
+
+func hasDuplicatedTarget(endpoints []*hatypes.Endpoint) bool {
+	targets := make(map[string]bool, len(endpoints))
+	for _, endpoint := range endpoints {
+		if endpoint.Enabled {
+			if targets[endpoint.Target] {
+				return true
+			}
+			targets[endpoint.Target] = true
+		}
+	}
+	return false
 }
 
 func (d *dynUpdater) checkEndpointPair(backend *hatypes.Backend, pair *epPair) bool {
